@@ -32,7 +32,7 @@ def scenario(recs, kind, seed, ipv, opts=()):
     for d in "cs":
         cuts[d] |= {s for s, _, _ in record_spans(c, d)}
     cd["cuts"] = {d: sorted(v) for d, v in cuts.items()}
-    return dict(conns=[cd], opts=list(opts))
+    return dict(conns=[cd], opts=list(opts), duplex=(seed if seed % 2 else 0))
 
 
 def _one(sc):
@@ -46,6 +46,24 @@ def _one(sc):
     got = obs["conns"][0] if obs["conns"] else dict(c=b"", s=b"")
     return dict(sc=sc, crashed=obs["crashed"], exc=obs["exc"], problems=obs["problems"], traces=tr,
                 same=all(got[d] == c.truth(d) for d in "cs"))
+
+
+def _sample(job):
+    import os
+    from harness import runner
+    from observe.pcapng import Observation
+    f, kl, opts = job
+    res = runner.run_inproc(open(f, "rb").read(), open(kl).read() if kl else None, opts=opts)
+    bad = ""
+    if res.crashed:
+        bad = "run aborted: " + res.exc.strip().splitlines()[-1]
+    elif res.out is None:
+        bad = "" if (kl is None and res.exit is not None) else "no output file"
+    else:
+        o = Observation(res.out)
+        if o.problems:
+            bad = "output not well-formed: " + o.problems[0]
+    return dict(file=os.path.relpath(f, runner.REPO), opts=opts, keys=("own" if kl else "none"), bad=bad)
 
 
 def run(chk):
@@ -87,6 +105,20 @@ def run(chk):
                 t["_sc"] = res["sc"]
                 traces.append(t)
     validate_out(chk, traces)
+    # "whatever the input": the repository's sample captures (TLS and QUIC, complete and incomplete) under option combinations,
+    # with the right, a foreign and no key log, must all yield well-formed files
+    from checks import samples
+    sj = [(f, kl, list(o)) for f, kl in samples.tls_sample_sets()[:: 3 if quick else 1] for o in ((), ("-a",), ("-m",), ("-c",))] + \
+         [(f, kl, list(o)) for f, kl in samples.quic_samples() for o in ((), ("-a",), ("-m", "443:8443"), ("-g",), ("-a", "-m"))]
+    others = [kl for _f, kl in samples.tls_sample_sets()[:1]]
+    sj += [(f, others[0], ["-a"]) for f, _kl in samples.quic_samples()]                       # QUIC capture with a foreign key log
+    sj += [(f, None, []) for f, _kl in samples.tls_sample_sets()[:: 9]]                       # no key source at all
+    for res in pool_map(_sample, sj, chunksize=2):
+        chk.evaluations += 1
+        chk.distinct.add(("sample", res["file"], tuple(res["opts"]), res["keys"]))
+        if res["bad"]:
+            chk.violation(f"sample {res['file']} opts {res['opts']} keys={res['keys']}: {res['bad']}", dict(sample=res["file"], opts=res["opts"], why=res["bad"]))
+    chk.extra["sample_runs"] = len(sj)
     chk.rule = ("record sequences [d, n, k] emitted by TLC (-simulate of TcpOut, n in 0..12, k in 1..5, <= 4 records, any direction "
                 "order) realised as TLS connections over 8 cipher kinds, IPv4/IPv6, with/without -m/-a; distinct = distinct "
                 "(record list, cut set); non-trivial: all (each exercises the split arithmetic and the counters)")
